@@ -18,6 +18,10 @@ theorem verdict : (classify Generated.factsC04).Sound (Holds (cfgOf Generated.fa
 #print axioms Hv.Storage.load_is_prefix_replay
 #print axioms Hv.Storage.oversized_csize_hides_rest
 #print axioms Hv.Storage.load_after_oversized_csize
+#print axioms Hv.Storage.load_stops_at_eof
+#print axioms Hv.Storage.load_zero_filled_tail
+#print axioms Hv.Storage.zeroTail_only_drops
+#print axioms Hv.Storage.readNextBlock_crc_mismatch_strict
 #print axioms holds_of_good
 #print axioms holds_partial
 #print axioms forgedSize_allocates
